@@ -262,7 +262,14 @@ class SymBackend:
         return core.SC(core.sqrt_fraction(Fraction(n)))
 
     # ---- checks --------------------------------------------------------------------
+    kind_filter = None  # when set: only obligations of these kinds are asserted (used by C07)
+
+    def _skip(self, kind):
+        return self.kind_filter is not None and kind not in self.kind_filter
+
     def require_zero(self, diffs, label, kind="identity", detail=None):
+        if self._skip(kind):
+            return True
         flat = []
         for d in diffs:
             if isinstance(d, np.ndarray):
@@ -317,6 +324,8 @@ class SymBackend:
         numerically against the real claim, and as a last resort the cross-multiplied identity is built."""
         from . import ref
 
+        if self._skip(kind):
+            return True
         lam, A = self._strip_common(rho1)
         trE = ref.trace(E)
         res = [a - e for a, e in zip(A.flatten(), E.flatten())]
@@ -341,6 +350,8 @@ class SymBackend:
     def require_parallel(self, v, w, label, kind="state-map", same_norm=False):
         """claim: vector v equals w up to a complex scalar (global phase / normalisation): v_i w_j == v_j w_i.
         Fast path as in require_equal_normalised: v = lam*a with a == w."""
+        if self._skip(kind):
+            return True
         lam, a = self._strip_common(v)
         vf, wf, af = list(v.flatten()), list(w.flatten()), list(a.flatten())
         res = [x - y for x, y in zip(af, wf)]
@@ -388,11 +399,15 @@ class SymBackend:
 
     def require(self, cond, label, kind="assert", detail=None):
         """cond: python bool / SymBool / shim 0-d array"""
+        if self._skip(kind):
+            return True
         f = core.lift_bool(cond)
         return self.EXP.require(f, label, kind, detail)
 
     def require_structural(self, ok, label, detail=None):
         """a discrete assertion (no symbols involved); still goes through the obligation counter"""
+        if self._skip("structural"):
+            return True
         return self.EXP.require(bool(ok), label, "structural", detail)
 
     def is_zero_formula(self, x):
@@ -504,7 +519,14 @@ class RealBackend:
     def sqrt_int(self, n):
         return math.sqrt(n)
 
+    kind_filter = None
+
+    def _skip(self, kind):
+        return self.kind_filter is not None and kind not in self.kind_filter
+
     def require_zero(self, diffs, label, kind="identity", detail=None):
+        if self._skip(kind):
+            return True
         m = 0.0
         for d in diffs:
             a = np.asarray(d, dtype=complex)
@@ -520,6 +542,8 @@ class RealBackend:
         return True
 
     def require_equal_normalised(self, rho1, E, label, kind="state-map"):
+        if self._skip(kind):
+            return True
         E = np.asarray(E, dtype=complex)
         tr = np.trace(E)
         if abs(tr) < 1e-14:
@@ -527,6 +551,8 @@ class RealBackend:
         return self.require_zero([np.asarray(rho1, dtype=complex) - E / tr], label, kind)
 
     def require_parallel(self, v, w, label, kind="state-map", same_norm=False):
+        if self._skip(kind):
+            return True
         v = np.asarray(v, dtype=complex).reshape(-1)
         w = np.asarray(w, dtype=complex).reshape(-1)
         cross = np.outer(v, w) - np.outer(w, v)
@@ -536,6 +562,8 @@ class RealBackend:
         return self.require_zero(diffs, label, kind)
 
     def require(self, cond, label, kind="assert", detail=None):
+        if self._skip(kind):
+            return True
         self.checked += 1
         ok = bool(cond)
         if not ok:
